@@ -56,6 +56,9 @@ type Machine struct {
 	subs *Subscriptions
 
 	errInternal chan error
+	// errInternalMx guards closing errInternal against late senders.
+	errInternalMx sync.RWMutex
+
 	panicCaught atomic.Bool
 	// If true, logs will start with the machine's id (5 chars).
 	// Default: true.
@@ -475,7 +478,9 @@ func (m *Machine) doDispose(force bool) {
 
 	// dispose chans
 
+	m.errInternalMx.Lock()
 	close(m.errInternal)
+	m.errInternalMx.Unlock()
 	m.subs.dispose()
 	for _, mut := range m.queue {
 		if !mut.IsCheck {
@@ -1433,10 +1438,7 @@ func (m *Machine) Eval(source string, fn func(), ctx context.Context) bool {
 		canceled.Store(true)
 		m.log(LogOps, "[eval:timeout] %s", source)
 		err := fmt.Errorf("%w: eval:%s", ErrEvalTimeout, source)
-		select {
-		case m.errInternal <- err:
-		default:
-		}
+		m.errInternalSend(err)
 		return false
 
 	case <-m.ctx.Done():
@@ -2403,10 +2405,7 @@ func (m *Machine) processHandlers(e *Event) (Result, bool) {
 			m.log(LogOps, "[cancel] (%s) by timeout", j(tx.TargetStates()))
 			m.log(LogDecisions, "[handler:timeout]: %s from %s", methodName, h.id)
 			err := fmt.Errorf("%w: %s from %s", ErrHandlerTimeout, methodName, h.id)
-			select {
-			case m.errInternal <- err:
-			default:
-			}
+			m.errInternalSend(err)
 			timeout = true
 
 			// wait for the handler to exit within HandlerDeadline
@@ -2673,6 +2672,21 @@ func (m *Machine) Transition() *Transition {
 // IsLocal returns true for *am.Machine and false for *arpc.NetworkMachine.
 func (m *Machine) IsLocal() bool {
 	return true
+}
+
+// errInternalSend reports err on the internal error channel without blocking.
+// No-op once the machine has been disposed (the channel is closed by then).
+func (m *Machine) errInternalSend(err error) {
+	m.errInternalMx.RLock()
+	defer m.errInternalMx.RUnlock()
+
+	if m.disposed.Load() {
+		return
+	}
+	select {
+	case m.errInternal <- err:
+	default:
+	}
 }
 
 // ErrInternal returns a channel which receives handler and eval timeout errors,
